@@ -562,14 +562,37 @@ impl<'tcx> Cx<'tcx> {
 
     // ---------------------------------------------------------------- MIR
 
-    fn place_j(&self, p: &Place<'tcx>) -> J {
+    fn place_j(&self, body: &Body<'tcx>, p: &Place<'tcx>) -> J {
         let mut proj = Vec::new();
+        let mut pty = mir::PlaceTy::from_ty(body.local_decls[p.local].ty);
         for e in p.projection.iter() {
+            let mut fname: Option<String> = None;
+            if let ProjectionElem::Field(f, _) = e {
+                if let TyKind::Adt(def, _) = pty.ty.kind() {
+                    let vi = match pty.variant_index {
+                        Some(v) => Some(v),
+                        None => {
+                            if def.is_enum() {
+                                None
+                            } else {
+                                Some(rustc_abi::FIRST_VARIANT)
+                            }
+                        }
+                    };
+                    if let Some(vi) = vi {
+                        if let Some(fd) = def.variant(vi).fields.get(f) {
+                            fname = Some(fd.name.to_string());
+                        }
+                    }
+                }
+            }
+            pty = pty.projection_ty(self.tcx, e);
             let j = match e {
                 ProjectionElem::Deref => J::s("*"),
                 ProjectionElem::Field(f, t) => J::obj()
                     .ki("f", f.index())
                     .ks("ty", self.ty_s(t))
+                    .opt("n", fname.map(J::s))
                     .done(),
                 ProjectionElem::Downcast(name, idx) => J::obj()
                     .ks("dc", name.map(|n| n.to_string()).unwrap_or_default())
@@ -593,10 +616,10 @@ impl<'tcx> Cx<'tcx> {
         J::obj().ki("l", p.local.index()).k("p", J::Arr(proj)).done()
     }
 
-    fn operand_j(&self, op: &Operand<'tcx>, owner: DefId) -> J {
+    fn operand_j(&self, body: &Body<'tcx>, op: &Operand<'tcx>, owner: DefId) -> J {
         match op {
-            Operand::Copy(p) => J::obj().ks("k", "copy").k("pl", self.place_j(p)).done(),
-            Operand::Move(p) => J::obj().ks("k", "move").k("pl", self.place_j(p)).done(),
+            Operand::Copy(p) => J::obj().ks("k", "copy").k("pl", self.place_j(body, p)).done(),
+            Operand::Move(p) => J::obj().ks("k", "move").k("pl", self.place_j(body, p)).done(),
             Operand::Constant(c) => J::obj()
                 .ks("k", "const")
                 .k("c", self.const_j(&c.const_, owner))
@@ -608,19 +631,19 @@ impl<'tcx> Cx<'tcx> {
 
     fn rvalue_j(&self, body: &Body<'tcx>, rv: &Rvalue<'tcx>, owner: DefId) -> J {
         match rv {
-            Rvalue::Use(op, ..) => J::obj().ks("k", "use").k("op", self.operand_j(op, owner)).done(),
+            Rvalue::Use(op, ..) => J::obj().ks("k", "use").k("op", self.operand_j(body, op, owner)).done(),
             Rvalue::Repeat(op, n) => J::obj()
                 .ks("k", "repeat")
-                .k("op", self.operand_j(op, owner))
+                .k("op", self.operand_j(body, op, owner))
                 .ks("n", format!("{}", n))
                 .opt("ni", n.try_to_target_usize(self.tcx).map(|v| J::UInt(v as u128)))
                 .done(),
             Rvalue::Ref(_, bk, p) => J::obj()
                 .ks("k", "ref")
                 .kb("mut", matches!(bk, BorrowKind::Mut { .. }))
-                .k("pl", self.place_j(p))
+                .k("pl", self.place_j(body, p))
                 .done(),
-            Rvalue::RawPtr(_, p) => J::obj().ks("k", "rawptr").k("pl", self.place_j(p)).done(),
+            Rvalue::RawPtr(_, p) => J::obj().ks("k", "rawptr").k("pl", self.place_j(body, p)).done(),
             Rvalue::Cast(kind, op, t) => J::obj()
                 .ks("k", "cast")
                 .ks(
@@ -631,22 +654,22 @@ impl<'tcx> Cx<'tcx> {
                         other => format!("{:?}", other),
                     },
                 )
-                .k("op", self.operand_j(op, owner))
+                .k("op", self.operand_j(body, op, owner))
                 .ks("ty", self.ty_s(*t))
                 .done(),
             Rvalue::BinaryOp(op, ab) => J::obj()
                 .ks("k", "bin")
                 .ks("op", format!("{:?}", op))
-                .k("a", self.operand_j(&ab.0, owner))
-                .k("b", self.operand_j(&ab.1, owner))
+                .k("a", self.operand_j(body, &ab.0, owner))
+                .k("b", self.operand_j(body, &ab.1, owner))
                 .done(),
             Rvalue::UnaryOp(op, a) => J::obj()
                 .ks("k", "un")
                 .ks("op", format!("{:?}", op))
-                .k("a", self.operand_j(a, owner))
+                .k("a", self.operand_j(body, a, owner))
                 .done(),
             Rvalue::Discriminant(p) => {
-                let mut o = J::obj().ks("k", "discr").k("pl", self.place_j(p));
+                let mut o = J::obj().ks("k", "discr").k("pl", self.place_j(body, p));
                 let pty = p.ty(&body.local_decls, self.tcx).ty;
                 o = o.ks("ty", self.ty_s(pty));
                 if let TyKind::Adt(def, _) = pty.kind() {
@@ -697,19 +720,19 @@ impl<'tcx> Cx<'tcx> {
                 }
                 o.k(
                     "ops",
-                    J::Arr(ops.iter().map(|x| self.operand_j(x, owner)).collect()),
+                    J::Arr(ops.iter().map(|x| self.operand_j(body, x, owner)).collect()),
                 )
                 .done()
             }
             Rvalue::CopyForDeref(p) => J::obj()
                 .ks("k", "use")
-                .k("op", J::obj().ks("k", "copy").k("pl", self.place_j(p)).done())
+                .k("op", J::obj().ks("k", "copy").k("pl", self.place_j(body, p)).done())
                 .done(),
             other => J::obj().ks("k", "other").ks("s", format!("{:?}", other)).done(),
         }
     }
 
-    fn callee_j(&self, func: &Operand<'tcx>, owner: DefId) -> J {
+    fn callee_j(&self, body: &Body<'tcx>, func: &Operand<'tcx>, owner: DefId) -> J {
         let tcx = self.tcx;
         if let Operand::Constant(c) = func {
             if let TyKind::FnDef(did, args) = c.const_.ty().kind() {
@@ -750,7 +773,7 @@ impl<'tcx> Cx<'tcx> {
         }
         J::obj()
             .ks("indirect", format!("{:?}", func))
-            .k("op", self.operand_j(func, owner))
+            .k("op", self.operand_j(body, func, owner))
             .done()
     }
 
@@ -770,7 +793,7 @@ impl<'tcx> Cx<'tcx> {
                     stmts.push(
                         J::obj()
                             .ks("k", "assign")
-                            .k("pl", self.place_j(pl))
+                            .k("pl", self.place_j(body, pl))
                             .k("rv", self.rvalue_j(body, rv, owner))
                             .k("at", self.span_j(st.source_info.span))
                             .done(),
@@ -780,7 +803,7 @@ impl<'tcx> Cx<'tcx> {
                     stmts.push(
                         J::obj()
                             .ks("k", "setdiscr")
-                            .k("pl", self.place_j(place))
+                            .k("pl", self.place_j(body, place))
                             .ki("v", variant_index.index())
                             .done(),
                     );
@@ -811,7 +834,7 @@ impl<'tcx> Cx<'tcx> {
                 J::obj()
                     .ks("k", "switch")
                     .ks("dty", self.ty_s(discr.ty(&body.local_decls, self.tcx)))
-                    .k("discr", self.operand_j(discr, owner))
+                    .k("discr", self.operand_j(body, discr, owner))
                     .k("arms", J::Arr(arms))
                     .ki("otherwise", targets.otherwise().index())
             }
@@ -823,7 +846,7 @@ impl<'tcx> Cx<'tcx> {
                 let pty = place.ty(&body.local_decls, self.tcx).ty;
                 J::obj()
                     .ks("k", "drop")
-                    .k("pl", self.place_j(place))
+                    .k("pl", self.place_j(body, place))
                     .ks("ty", self.ty_s(pty))
                     .k("ty_j", self.ty_j(pty, 4))
                     .ki("t", target.index())
@@ -833,12 +856,12 @@ impl<'tcx> Cx<'tcx> {
                 self.n_calls += 1;
                 J::obj()
                     .ks("k", "call")
-                    .k("f", self.callee_j(func, owner))
+                    .k("f", self.callee_j(body, func, owner))
                     .k(
                         "args",
-                        J::Arr(args.iter().map(|a| self.operand_j(&a.node, owner)).collect()),
+                        J::Arr(args.iter().map(|a| self.operand_j(body, &a.node, owner)).collect()),
                     )
-                    .k("dest", self.place_j(destination))
+                    .k("dest", self.place_j(body, destination))
                     .k(
                         "t",
                         match target {
@@ -851,28 +874,28 @@ impl<'tcx> Cx<'tcx> {
             }
             TerminatorKind::TailCall { func, args, .. } => J::obj()
                 .ks("k", "tailcall")
-                .k("f", self.callee_j(func, owner))
+                .k("f", self.callee_j(body, func, owner))
                 .k(
                     "args",
-                    J::Arr(args.iter().map(|a| self.operand_j(&a.node, owner)).collect()),
+                    J::Arr(args.iter().map(|a| self.operand_j(body, &a.node, owner)).collect()),
                 ),
             TerminatorKind::Assert { cond, expected, msg, target, unwind } => {
                 self.n_asserts += 1;
                 let (mk, mops): (String, Vec<J>) = match &**msg {
                     AssertKind::BoundsCheck { len, index } => (
                         "BoundsCheck".into(),
-                        vec![self.operand_j(len, owner), self.operand_j(index, owner)],
+                        vec![self.operand_j(body, len, owner), self.operand_j(body, index, owner)],
                     ),
                     AssertKind::Overflow(op, a, b) => (
                         format!("Overflow({:?})", op),
-                        vec![self.operand_j(a, owner), self.operand_j(b, owner)],
+                        vec![self.operand_j(body, a, owner), self.operand_j(body, b, owner)],
                     ),
-                    AssertKind::OverflowNeg(a) => ("OverflowNeg".into(), vec![self.operand_j(a, owner)]),
+                    AssertKind::OverflowNeg(a) => ("OverflowNeg".into(), vec![self.operand_j(body, a, owner)]),
                     AssertKind::DivisionByZero(a) => {
-                        ("DivisionByZero".into(), vec![self.operand_j(a, owner)])
+                        ("DivisionByZero".into(), vec![self.operand_j(body, a, owner)])
                     }
                     AssertKind::RemainderByZero(a) => {
-                        ("RemainderByZero".into(), vec![self.operand_j(a, owner)])
+                        ("RemainderByZero".into(), vec![self.operand_j(body, a, owner)])
                     }
                     AssertKind::ResumedAfterReturn(_) => ("ResumedAfterReturn".into(), vec![]),
                     AssertKind::ResumedAfterPanic(_) => ("ResumedAfterPanic".into(), vec![]),
@@ -883,7 +906,7 @@ impl<'tcx> Cx<'tcx> {
                 };
                 J::obj()
                     .ks("k", "assert")
-                    .k("cond", self.operand_j(cond, owner))
+                    .k("cond", self.operand_j(body, cond, owner))
                     .kb("expected", *expected)
                     .ks("msg", mk)
                     .k("mops", J::Arr(mops))
@@ -892,9 +915,9 @@ impl<'tcx> Cx<'tcx> {
             }
             TerminatorKind::Yield { value, resume, resume_arg, drop } => J::obj()
                 .ks("k", "yield")
-                .k("value", self.operand_j(value, owner))
+                .k("value", self.operand_j(body, value, owner))
                 .ki("resume", resume.index())
-                .k("resume_arg", self.place_j(resume_arg))
+                .k("resume_arg", self.place_j(body, resume_arg))
                 .k(
                     "drop",
                     match drop {
@@ -944,7 +967,7 @@ impl<'tcx> Cx<'tcx> {
                     upnames.push(
                         J::obj()
                             .ks("name", vdi.name.to_string())
-                            .k("pl", self.place_j(p))
+                            .k("pl", self.place_j(body, p))
                             .done(),
                     );
                 }
